@@ -18,6 +18,7 @@ import (
 	"reflect"
 	"strings"
 	"sync"
+	"syscall"
 	"time"
 
 	"verif.local/v/oracle"
@@ -381,5 +382,229 @@ func scenC14(run *vlab.Run, sx, tmp string) {
 			break
 		}
 		srv.Close()
+	}
+}
+
+// ---------------------------------------------------------------------------
+// c16app: the exit delay of the application scans (real binary, real cobra wiring of --exit-delay and
+// --timeout): the process must not exit earlier than the exit delay after its last probe got its answer.
+// Lower bound only, on safe-side stamps: the server's stamp is taken BEFORE it writes its last answer
+// (<= the moment the probe can finish), the exit is observed after wait() returned (>= the true exit).
+
+func init() { scenarios["c16app"] = scenC16App }
+
+func scenC16App(run *vlab.Run, sx, tmp string) {
+	rng := run.Rand("c16app")
+	n := run.Pick(18, 90)
+	for i := 0; i < n; i++ {
+		if !run.Mine(i) {
+			continue
+		}
+		kind := []string{"socks", "docker", "elastic"}[i%3]
+		delayMs := []int{-1, 700, 1200, 150}[i/3%4] // -1: the default (300 ms)
+		tmo := []string{"100ms", "2s", "400ms"}[i/12%3]
+		var mu sync.Mutex
+		var last time.Time
+		conns := 0
+		stamp := func() {
+			mu.Lock()
+			last = time.Now()
+			conns++
+			mu.Unlock()
+		}
+		port := 20000 + rng.Intn(20000)
+		ln, err := net.Listen("tcp4", fmt.Sprintf("0.0.0.0:%d", port))
+		if err != nil {
+			continue
+		}
+		switch kind {
+		case "socks":
+			go func() {
+				for {
+					c, err := ln.Accept()
+					if err != nil {
+						return
+					}
+					go func(c net.Conn) {
+						defer c.Close()
+						buf := make([]byte, 3)
+						c.SetDeadline(time.Now().Add(2 * time.Second))
+						c.Read(buf)
+						stamp()
+						c.Write([]byte{5, 0})
+						time.Sleep(20 * time.Millisecond)
+					}(c)
+				}
+			}()
+		default:
+			srv := &http.Server{Handler: http.HandlerFunc(func(w http.ResponseWriter, r *http.Request) {
+				w.Header().Set("Content-Type", "application/json")
+				w.Header().Set("Api-Version", "1.41")
+				stamp()
+				fmt.Fprint(w, `{"ID":"verif","Name":"verif","ApiVersion":"1.41","Version":"20.10.0","name":"n","cluster_name":"c"}`)
+			})}
+			go srv.Serve(ln)
+		}
+		bits := 29 + rng.Intn(4)
+		base := (uint32(0x7f000000) | uint32(1+rng.Intn(200))<<16 | uint32(rng.Intn(256))<<8) &^ (1<<uint(32-bits) - 1)
+		args := []string{kind, "--json", "-p", fmt.Sprint(port), "-t", tmo}
+		want := 300 * time.Millisecond
+		if delayMs >= 0 {
+			want = time.Duration(delayMs) * time.Millisecond
+			args = append(args, "--exit-delay", fmt.Sprintf("%dms", delayMs))
+		}
+		args = append(args, fmt.Sprintf("%s/%d", ipS(base), bits))
+		run.Case(fmt.Sprintf("c16app%03d", i), args)
+		res := RunCase(sx, &CaseSpec{Args: args, Setup: loOnly, Timeout: 120 * time.Second})
+		ln.Close()
+		run.Eval(1)
+		if !baseChecks(run, res, args, true) {
+			continue
+		}
+		mu.Lock()
+		l, nc := last, conns
+		mu.Unlock()
+		if nc == 0 {
+			run.Inconclusive("no probe reached the monitor's server")
+			continue
+		}
+		gap := res.ExitWall.Sub(l)
+		if gap < want {
+			run.Violation("app-exit-before-delay", fmt.Sprintf("the process exited %v after its last probe was answered, the exit delay is %v: %s", gap, want, strings.Join(args, " ")), args)
+		}
+		run.Count("app_exit_delay_runs", 1)
+		run.Count("app_exit_delay_runs:"+kind, 1)
+		run.Count("app_answers_served", int64(nc))
+		run.Max("app_max_exit_overshoot_ms", (gap - want).Milliseconds())
+		run.Distinct(strings.Join(args, " "))
+	}
+}
+
+// ---------------------------------------------------------------------------
+// c12app: Ctrl-C while application probes are in flight against servers that accept and then stall.
+// The request timeout is set far beyond the watchdog (-t 90s vs 20 s), so a scan that only ends when
+// its probes time out is still there - without CPU time - when the watchdog looks (parked criterion).
+
+func init() { scenarios["c12app"] = scenC12App }
+
+func scenC12App(run *vlab.Run, sx, tmp string) {
+	rng := run.Rand("c12app")
+	n := run.Pick(18, 120)
+	for i := 0; i < n; i++ {
+		if !run.Mine(i) {
+			continue
+		}
+		kind := []string{"elastic", "socks", "docker"}[i%3]
+		stall := []string{"silent", "partial", "positive-then-silent"}[i/3%3]
+		sigAfter := 1 + rng.Intn(4) // SIGINT once this many connections are being held
+		workers := []int{1, 2, 8, 100}[rng.Intn(4)]
+		if workers < sigAfter {
+			sigAfter = workers
+		}
+		port := 20000 + rng.Intn(20000)
+		ln, err := net.Listen("tcp4", fmt.Sprintf("0.0.0.0:%d", port))
+		if err != nil {
+			continue
+		}
+		var mu sync.Mutex
+		held := 0
+		release := make(chan struct{})
+		var cr0 *CaseRun
+		fired := false
+		go func() {
+			for {
+				c, err := ln.Accept()
+				if err != nil {
+					return
+				}
+				go func(c net.Conn) {
+					defer c.Close()
+					mu.Lock()
+					held++
+					k := held
+					cr := cr0
+					mu.Unlock()
+					buf := make([]byte, 4096)
+					switch {
+					case stall == "positive-then-silent" && k == 1 && kind == "socks":
+						c.Read(buf[:3])
+						c.Write([]byte{5, 0})
+						return
+					case stall == "positive-then-silent" && k == 1 && kind == "elastic":
+						c.Read(buf)
+						body := `{"name":"n"}`
+						fmt.Fprintf(c, "HTTP/1.1 200 OK\r\nContent-Type: application/json\r\nContent-Length: %d\r\nConnection: close\r\n\r\n%s", len(body), body)
+						return
+					case stall == "partial":
+						c.SetReadDeadline(time.Now().Add(time.Second))
+						c.Read(buf)
+						if kind == "socks" {
+							c.Write([]byte{5})
+						} else {
+							c.Write([]byte("HTTP/1.1 200 OK\r\nContent-Type: application/json\r\nContent-Length: 400\r\n\r\n{\"name\":"))
+						}
+					}
+					mu.Lock()
+					fire := !fired && held >= sigAfter && cr != nil
+					if fire {
+						fired = true
+					}
+					mu.Unlock()
+					if fire {
+						time.Sleep(50 * time.Millisecond) // the probe is in flight now
+						cr.Signal(syscall.SIGINT)
+					}
+					<-release
+				}(c)
+			}
+		}()
+		bits := 27 + rng.Intn(3)
+		base := (uint32(0x7f000000) | uint32(1+rng.Intn(200))<<16 | uint32(rng.Intn(256))<<8) &^ (1<<uint(32-bits) - 1)
+		args := []string{kind, "--json", "-p", fmt.Sprint(port), "-w", fmt.Sprint(workers), "-t", "90s", fmt.Sprintf("%s/%d", ipS(base), bits)}
+		run.Case(fmt.Sprintf("c12app%03d", i), map[string]interface{}{"argv": args, "server": stall, "sigint_after_connections": sigAfter})
+		res := RunCase(sx, &CaseSpec{Args: args, Setup: loOnly, Timeout: 20 * time.Second, OnStart: func(cr *CaseRun) {
+			mu.Lock()
+			cr0 = cr
+			mu.Unlock()
+		}})
+		close(release)
+		ln.Close()
+		run.Eval(1)
+		desc := map[string]interface{}{"argv": strings.Join(args, " "), "server": stall, "sigint_after_connections": sigAfter}
+		if res.SetupErr != "" {
+			run.Inconclusive("setup: " + res.SetupErr)
+			continue
+		}
+		if t := res.crashText(); t != "" {
+			run.Violation("crash-on-sigint:app", "sx crashed after SIGINT: "+strings.SplitN(t, "\n", 2)[0], map[string]interface{}{"case": desc, "stderr": t})
+			continue
+		}
+		mu.Lock()
+		f := fired
+		mu.Unlock()
+		if !f {
+			run.Inconclusive("SIGINT was never sent: too few connections reached the monitor's server")
+			continue
+		}
+		if res.TimedOut {
+			if res.Parked {
+				run.Violation("no-exit-after-sigint:app-probe-in-flight", fmt.Sprintf("sx %s did not exit within 20 s after SIGINT while %d probes were waiting for a stalled server (request timeout 90 s): no CPU time", kind, sigAfter), map[string]interface{}{"case": desc, "goroutines": tailStr(res.Dump, 60000)})
+			} else {
+				run.Inconclusive(fmt.Sprintf("still running 20 s after start: %v", desc))
+			}
+			continue
+		}
+		for k, l := range res.Stdout {
+			var v map[string]interface{}
+			if !strings.HasSuffix(l, "\n") || json.Unmarshal([]byte(l), &v) != nil {
+				run.Violation("incomplete-record-after-sigint", fmt.Sprintf("stdout line %d of %d is not a complete JSON record: %.200q", k+1, len(res.Stdout), l), desc)
+				break
+			}
+		}
+		run.Count("app_sigints_with_probes_in_flight", 1)
+		run.Count("app_sigint:"+kind, 1)
+		run.Count("app_sigint_server:"+stall, 1)
+		run.Max("app_max_exit_after_start_ms", res.TExit.Milliseconds())
+		run.Distinct(fmt.Sprintf("%s/%s/%d", strings.Join(args, " "), stall, sigAfter))
 	}
 }
